@@ -15,9 +15,23 @@ func v3(v []int) vector3.Float64 {
 	return vector3.New(float64(v[0]), float64(v[1]), float64(v[2]))
 }
 
-func rayOf(r []int) (geometry.Ray, float64, float64) {
+// qv3 is the point of a padded point / range query (class mask at zsAt).
+func qv3(q []int, zsAt int) vector3.Float64 {
+	zs := q[zsAt]
+	return vector3.New(zv(q, 0, zs), zv(q, 1, zs), zv(q, 2, zs))
+}
+
+// rayParts are origin and direction of a padded ray query with its value classes.
+func rayParts(r []int) (vector3.Float64, vector3.Float64, float64, float64) {
 	td := float64(r[8])
-	return geometry.NewRay(v3(r[0:3]), v3(r[3:6])), float64(r[6]) / td, float64(r[7]) / td
+	zs := r[9]
+	return vector3.New(zv(r, 0, zs), zv(r, 1, zs), zv(r, 2, zs)),
+		vector3.New(zv(r, 3, zs), zv(r, 4, zs), zv(r, 5, zs)), float64(r[6]) / td, float64(r[7]) / td
+}
+
+func rayOf(r []int) (geometry.Ray, float64, float64) {
+	o, d, t0, t1 := rayParts(r)
+	return geometry.NewRay(o, d), t0, t1
 }
 
 // RestAttribute is the name of the second float3 attribute of the harness.
@@ -237,9 +251,9 @@ func runOctree(enc *json.Encoder, c Case) error {
 		batch := make([]closestEntry, len(c.QPts))
 		forEach(len(c.QPts), func(qi int) {
 			q := c.QPts[qi]
-			qv := v3(q)
+			qv := qv3(q, 3)
 			bad := false
-			e := closestEntry{D2: make([]int, n), Cp: make([][]int, n), Mcp: [][]int{}, Rp: []int{0, 0, 0}}
+			e := closestEntry{Tw: q[4], D2: make([]int, n), Cp: make([][]int, n), Mcp: [][]int{}, Rp: []int{0, 0, 0}}
 			for i, el := range b.elems {
 				p := el.ClosestPoint(qv)
 				e.D2[i] = fx(p.DistanceSquared(qv), &bad)
@@ -277,8 +291,8 @@ func runOctree(enc *json.Encoder, c Case) error {
 		line = newBatch("contain", c.Id)
 		cb := make([]setEntry, len(c.QPts))
 		forEach(len(c.QPts), func(qi int) {
-			qv := v3(c.QPts[qi])
-			e := setEntry{Hit: []int{}, Res: []int{}}
+			qv := qv3(c.QPts[qi], 3)
+			e := setEntry{Q: c.QPts[qi], Tw: c.QPts[qi][4], Hit: []int{}, Res: []int{}}
 			for i := range b.elems {
 				if bounds[i].Contains(qv) {
 					e.Hit = append(e.Hit, i+1)
@@ -301,9 +315,9 @@ func runOctree(enc *json.Encoder, c Case) error {
 		rb := make([]setEntry, len(c.Ranges))
 		forEach(len(c.Ranges), func(qi int) {
 			q := c.Ranges[qi]
-			qv := v3(q[0:3])
-			r := float64(q[3]) / float64(q[4])
-			e := setEntry{Hit: []int{}, Res: []int{}}
+			qv := qv3(q, 5)
+			r := radiusOf(q)
+			e := setEntry{Q: q, Tw: q[7], Hit: []int{}, Res: []int{}}
 			for i := range b.elems {
 				if bounds[i].ClosestPoint(qv).Distance(qv) <= r {
 					e.Hit = append(e.Hit, i+1)
@@ -327,7 +341,7 @@ func runOctree(enc *json.Encoder, c Case) error {
 		var listMu sync.Mutex // the list query fills a buffer owned by the tree: one caller at a time
 		forEach(len(c.Rays), func(qi int) {
 			ray, t0, t1 := rayOf(c.Rays[qi])
-			e := rayEntry{Hit: []int{}, Res: []int{}, Trav: []int{}}
+			e := rayEntry{Q: c.Rays[qi], Tw: c.Rays[qi][10], Hit: []int{}, Res: []int{}, Trav: []int{}}
 			for i := range b.elems {
 				if bounds[i].IntersectsRayInRange(ray, t0, t1) {
 					e.Hit = append(e.Hit, i+1)
@@ -372,7 +386,7 @@ func runOctree(enc *json.Encoder, c Case) error {
 				return t, true
 			}
 			bad, badAns := false, false
-			e := nearEntry{Te: make([]int, n), Hitb: []int{}, Vis: []int{}}
+			e := nearEntry{Tw: c.Rays[qi][10], Te: make([]int, n), Hitb: []int{}, Vis: []int{}}
 			for i := range b.elems {
 				e.Te[i] = None
 				if t, ok := elemHit(i, t0, t1); ok {
